@@ -21,6 +21,8 @@ tvars == <<vars, ti, pos>>
 \* the design invariants are part of the step relation (see SamplerTrace)
 AllInv ==
   /\ IdsStay
+  /\ OneEntryPerUtterance
+  /\ EmptyUtterancesStay
   /\ CutIsLossless
   /\ PaddingIsPad
   /\ OptionalParts
@@ -29,6 +31,8 @@ AllInv ==
   /\ WindowsSplitBack
 FailedInvs ==
   (IF IdsStay THEN {} ELSE {"IdsStay"})
+  \cup (IF OneEntryPerUtterance THEN {} ELSE {"OneEntryPerUtterance"})
+  \cup (IF EmptyUtterancesStay THEN {} ELSE {"EmptyUtterancesStay"})
   \cup (IF CutIsLossless THEN {} ELSE {"CutIsLossless"})
   \cup (IF PaddingIsPad THEN {} ELSE {"PaddingIsPad"})
   \cup (IF OptionalParts THEN {} ELSE {"OptionalParts"})
